@@ -2,6 +2,7 @@ package main
 
 import (
 	"fmt"
+	"strings"
 )
 
 // C06: the live decoder survives arbitrary bytes and resynchronises like a MIDI receiver.
@@ -40,6 +41,13 @@ func init() {
 				}
 			}
 			rec(nil)
+			genSysexSweep(r, tier, func(buf int, w []wireByte) {
+				cs, _ := cutWire(r, w, r.Pick(0, 3, 3))
+				emit(Case{Op: liveOp(7, buf, cs), Tags: []string{"sysex-length-sweep"}, NonTrivial: true})
+			})
+			for _, op := range bigSysexOps(r, tier) {
+				emit(Case{Op: op, Tags: []string{"big-sysex"}, NonTrivial: true})
+			}
 			for i := 0; i < nrand; i++ {
 				b := genGarbage(r, r.Range(1, 60))
 				buf := r.Pick(0, 1, 2, 3, 4, 8, 16)
@@ -74,6 +82,10 @@ func init() {
 }
 
 func runC06(c Case, m *Model) (v Verdict) {
+	if strings.HasPrefix(c.Op, "live.big ") {
+		runBigSysex(c.Op, &v)
+		return
+	}
 	f := fields(c.Op)
 	var cfg, buf int
 	fmt.Sscanf(f["cfg"], "%d", &cfg)
